@@ -39,14 +39,14 @@ impl Prop for C01 {
     vec![
       Leg {
         name: "wild trees",
-        source: Cases::Generated(Box::new(|| tree(GenCfg::wild()).prop_map(|spec| TreeCase { spec }).boxed()), 12_000, 600_000),
+        source: Cases::Generated(Box::new(|| tree(GenCfg::wild()).prop_map(|spec| TreeCase { spec }).boxed()), 120_000, 3_000_000),
       },
       Leg {
         name: "ascii trees",
         source: Cases::Generated(
           Box::new(|| tree(GenCfg::positional()).prop_map(|spec| TreeCase { spec }).boxed()),
-          8_000,
-          400_000,
+          80_000,
+          2_000_000,
         ),
       },
     ]
